@@ -66,7 +66,8 @@ Definition dispatch (fn : Z) (a : sexp) : sexp :=
                  (skip_to (fun c => existsb (N.eqb c) cs) (sc_init (d_str (d_nth a 1))))
   | 8%Z => let x := d_str (d_nth a 0) in let bad := d_str (d_nth a 1) in let y := d_str (d_nth a 2) in
            L [e_out e_db (parse_bib Capture (x ++ bad ++ y)); e_out e_db (parse_bib Capture (x ++ y));
-              e_out e_db (parse_bib Capture x)]
+              e_out e_db (parse_bib Capture x); e_out e_db (parse_bib NonStrict (x ++ bad ++ y));
+              e_out e_db (parse_bib NonStrict x); e_out e_db (parse_bib Strict (x ++ bad ++ y))]
   | 9%Z | 10%Z => e_out e_db (parse_bib Capture (d_str (d_nth a 0)))
   | 11%Z => e_out e_low (lowlevel Capture (d_str (d_nth a 0)))
   | 12%Z => e_out e_db (parse_bib_seq Capture (d_list d_str (d_nth a 0)) db_init month_macros [])
